@@ -501,6 +501,7 @@ def finish(ctx):
         "theorems": thms,
         "rule": getattr(p, "RULE", "cases from the plug-in generator; distinct by op-file hash"),
         "exhaustive": False,
+        "not_proved": list(getattr(p, "NOT_PROVED", [])),
         "notes": ctx.notes,
     })
     if not cov["samples"]:
